@@ -115,8 +115,9 @@ def run(ctx):
             oks += 1
             first = payload.items[0] if payload.items else None
             if first is None or first.variant != variant:
-                ctx.ob("parse_operand/%s" % kind, False, "delivers %r" % (first,))
-                ctx.violation("parse/operand-kind/%s" % kind, "parse_operand(%s) delivers %s, not %s" % (kind, first and first.variant, variant), None)
+                # the expectation comes from the token reader of the SAME function: a disagreement is an inconsistency of my two
+                # readers, not a fact about the code
+                ctx.ob("parse_operand/%s" % kind, None, "MIR delivers %r, the token reader expects %s" % (first, variant))
                 continue
             val = first.fields[0]
             want = z3.Concat(w1, w0) if payload_ty.get(variant) == "u64" else w0
@@ -127,7 +128,14 @@ def run(ctx):
                 good = False
             ctx.ob("parse_operand/%s/delivers-%s(word)" % (kind, variant), True if good else False)
             if not good:
-                ctx.violation("parse/operand-value/%s" % kind, "parse_operand(%s) does not deliver the word it read" % kind, None)
+                w0v = m.eval(w0, model_completion=True).as_long() if (st == "sat" and m is not None) else 1
+                w1v = m.eval(w1, model_completion=True).as_long() if (st == "sat" and m is not None) else 2
+                real = rp.ask("parse_assemble_kind %s %d %d" % (kind, w0v, w1v))
+                if "panic" in real or (real.get("ok") and real.get("words", [])[:1] != [w0v]):
+                    ctx.violation("parse/operand-value/%s" % kind, "parse_operand(%s) does not deliver the word it read: the word %#x is delivered as %s and assembles to %s" % (
+                        kind, w0v, real.get("operands"), real.get("words")), {"cmd": "parse_assemble_kind %s %d %d" % (kind, w0v, w1v), "real": real})
+                else:
+                    ctx.inconclusive.append(("parse_operand/%s/value" % kind, "model-only: the compiled crate answers %s" % real))
         if not oks:
             ctx.ob("parse_operand/%s/has-ok-path" % kind, None, "no accepting path")
     # ---------------- parameters of enumerants / mask bits, context-dependent literal widths
